@@ -631,7 +631,10 @@ static void gentabs(void)
 		++sz;
 
 	/* Note that this table is alternately defined if ctrl.fulltbl */
-	ptype = optimize_pack(sz);
+	/* With REJECT the entries are indices into yy_acclist, not rule
+	 * numbers: their width depends on the size of that list.
+	 */
+	ptype = optimize_pack(reject ? (size_t) MAX(sz, numas + 2) : (size_t) sz);
 	outn ("m4_define([[M4_HOOK_NEED_ACCEPT]], 1)");
 	out_str ("m4_define([[M4_HOOK_ACCEPT_TYPE]], [[%s]])", ptype->name);
 	out_dec ("m4_define([[M4_HOOK_ACCEPT_SIZE]], [[%d]])", sz);
